@@ -714,6 +714,13 @@ static Family cookie_family(const std::string &tier)
     c.preamble = { { EV_REQ, 0, 0 }, { EV_REPLY, 0, RK_CK_VALID }, { EV_REQ, 1, 0 }, { EV_REPLY, 1, RK_CK_NONE } };
     f.cfgs.push_back(c);
   }
+  {
+    // non-initial start: request a has already been answered BADCOOKIE twice (two of its three permitted re-sends used)
+    Cfg c      = cfg("1srv-edns-from-two-badcookie-resends", 1, 3, ARES_FLAG_EDNS);
+    c.auto_io  = true;
+    c.preamble = { { EV_REQ, 0, 0 }, { EV_REPLY, 0, RK_BADCOOKIE }, { EV_REPLY, 1, RK_BADCOOKIE } };
+    f.cfgs.push_back(c);
+  }
   f.reqs.push_back(rq(2, "a.example.com"));
   f.reqs.push_back(rq(2, "b.example.com", 28));
   f.req_menu   = { 0, 1 };
